@@ -712,8 +712,9 @@ pub fn nonstring_class(text: &str, opt: Opt) -> Cls {
             && r.radix != 2
             && (r.mags[0].fits_signed(r.neg, 128) || r.mags[0].fits_unsigned(r.neg, 128))
     };
+    // the legacy-octal reading only makes a token "maybe a number": whether the no_schema test
+    // follows legacy_octal_numbers is not documented
     let def = int_strict(&i0)
-        || int_strict(&i1)
         || (f.cls == Cls::Strict)
         || (b.cls == Cls::Strict && (b.is_tf || !opt.strict))
         || n == Cls::Strict;
